@@ -37,6 +37,9 @@ def templates(tier, seed=0):
         ts.append({'name': 'mb-split-law-%d' % i, 'src': 's := "%s"\nk := @h0@\nprint((s[:k] + s[k:]) == s)\nprint(s[:k]->len())\nprint(s->len())\n' % s})
         ts.append({'name': 'mb-index-eq-%d' % i, 'src': 's := "%s"\nprint(s[@h0@] == s[@h1@])\nprint((s[@h0@:@h1@] + s[@h1@:]) == s[@h0@:])\n' % s})
         ts.append({'name': 'mb-for-%d' % i, 'src': 's := "%s"\nn := 0\nfor [i, c] in s {\n    n += 1\n    print(c == s[i])\n}\nprint(n)\n' % s})
+    # range assignment from a string with multi-byte characters: one element per byte
+    for i, s in enumerate(MB):
+        ts.append({'name': 'mb-range-assign-%d' % i, 'src': 's := "%s"\nxs := [1, 2, 3, 4, 5, 6]\nxs[@h0@:@h1@] = s\nn := 0\nfor [j, v] in xs {\n    n += 1\n}\nprint(n)\na := @h0@\nfor [j, c] in s {\n    print(xs[a + j] == c)\n}\nprint(xs[0])\n' % s})
     # the write frame: only position i changes
     ts.append({'name': 'frame-index-assign', 'src': 'xs := [@h10@, @h11@, @h12@]\nys := xs[:]\ni := @h0@\nxs[i] = @h13@\nfor [j, v] in xs {\n    print(v)\n}\nprint(ys)\n'})
     return ts
